@@ -377,6 +377,7 @@ func c02tree(c *Ctx) {
 // c02scale: the per-parent sums of the min-scaling are keyed by the parent, the per-quota records by the quota.
 func c02scale(c *Ctx) {
 	r := c.R
+	c02exact(c)
 	r.Rule("KEY-ROLE(min scaling): in ScaleMinQuotaManager.{update,remove,getScaledMinQuota} every keyed access to enableScaleSubsSumMinQuotaMap/disableScaleSubsSumMinQuotaMap uses the parent-name parameter and every keyed access to originalMinQuotaMap/quotaEnableMinQuotaScaleMap uses the quota's own name parameter (the sums belong to the parent; a quota's own name indexes the sums of ITS children)")
 	role := map[string]int{"enableScaleSubsSumMinQuotaMap": 0, "disableScaleSubsSumMinQuotaMap": 0, "originalMinQuotaMap": 1, "quotaEnableMinQuotaScaleMap": 1}
 	n := 0
@@ -464,6 +465,125 @@ func c02scale(c *Ctx) {
 			r.Check(exact && !lossy, "EXACT-CMP", fkey(fn)+"/deficit-test", c.InstrPos(call), "the deficit test uses Quantity.Cmp", sprintf("the deficit test is not an exact Quantity.Cmp (Cmp-based: %v, compares two rounded readings: %v): a CPU total of 99500m against minimums summing to 100 cores reads as 100 >= 100 and the minimums are not scaled", exact, lossy))
 		}
 		r.Floor("EXACT-CMP", "need-scale insertions", na, 1)
+	}
+}
+
+// c02exact: change detection and deficit tests compare exactly; only short dimensions are rescaled.
+func c02exact(c *Ctx) {
+	r := c.R
+	r.Rule("EXACT-CMP(package): in package elasticquota/core no comparison has a Quantity.Value() reading on both sides (Value() rounds up to whole units, so two CPU amounts inside one core compare equal: a change-detection guard built on it drops sub-core request changes and the runtime keeps depending on history); quantities are compared by Cmp/Equal")
+	isValue := func(v ssa.Value) bool {
+		cl, _ := an.ResultOfCall(firstSource(v))
+		if cl == nil {
+			return false
+		}
+		switch an.CalleeName(&cl.Call) {
+		case "(*k8s.io/apimachinery/pkg/api/resource.Quantity).Value", "(k8s.io/apimachinery/pkg/api/resource.Quantity).Value":
+			return true
+		}
+		return false
+	}
+	nExact := 0
+	for _, fn := range c.PkgFuncs(quotaCorePkg) {
+		n := 0
+		for _, b := range fn.Blocks {
+			for _, in := range b.Instrs {
+				switch x := in.(type) {
+				case *ssa.BinOp:
+					switch x.Op {
+					case token.EQL, token.NEQ, token.LSS, token.LEQ, token.GTR, token.GEQ:
+						if isValue(x.X) && isValue(x.Y) {
+							n++
+							r.Fail("EXACT-CMP", sprintf("%s/value-vs-value#%d", fkey(fn), n), c.InstrPos(x), "two quantities are compared through Value(): amounts that differ by less than one whole unit (e.g. 1500m and 1800m CPU) compare equal")
+						}
+					}
+				case *ssa.Call:
+					switch an.ShortCallee(&x.Call) {
+					case "Cmp", "Equal", "Equals":
+						nExact++
+					}
+				}
+			}
+		}
+	}
+	r.Floor("EXACT-CMP", "exact quantity comparisons seen in package core (the scan is alive)", nExact, 10)
+
+	r.Rule("SCALE(only short dimensions): in ScaleMinQuotaManager.getScaledMinQuota every entry written into the returned scaled minimum is keyed by an element of a list whose every append is guarded by total.Cmp(children's min sum) < 0 for the appended dimension (a dimension with head-room keeps its declared min; rescaling it would blow the minimum up to the whole total)")
+	if fn := c.Fn(quotaCorePkg, "ScaleMinQuotaManager", "getScaledMinQuota"); fn != nil {
+		key := fkey(fn) + "/only-short-dimensions"
+		// the returned maps
+		ret := map[ssa.Value]bool{}
+		for _, alt := range an.ReturnAlts(fn) {
+			for _, s := range cellSources(alt.Results[1]) {
+				ret[s] = true
+			}
+		}
+		isTotal := func(v ssa.Value) bool {
+			for x := range backwardAll(v) {
+				if isParamOf(fn, x, 0) {
+					return true
+				}
+			}
+			return false
+		}
+		isSum := func(v ssa.Value) bool {
+			for x := range backwardAll(v) {
+				if cl, ok := x.(*ssa.Call); ok && an.CalleeName(&cl.Call) == "k8s.io/apiserver/pkg/quota/v1.Add" {
+					return true
+				}
+			}
+			return false
+		}
+		n, ok := 0, true
+		why := ""
+		for _, b := range fn.Blocks {
+			for _, in := range b.Instrs {
+				mu, isMU := in.(*ssa.MapUpdate)
+				if !isMU {
+					continue
+				}
+				hit := false
+				for _, s := range cellSources(mu.Map) {
+					if ret[s] {
+						hit = true
+					}
+				}
+				if !hit {
+					continue
+				}
+				n++
+				// the key: an element of a list
+				var list ssa.Value
+				for x := range backwardAll(mu.Key) {
+					if ia, isIA := x.(*ssa.IndexAddr); isIA {
+						list = ia.X
+					}
+				}
+				if list == nil {
+					ok = false
+					why = c.InstrPos(mu) + ": the dimension written is not taken from the list of short dimensions"
+					continue
+				}
+				na := 0
+				for x := range backwardAll(list) {
+					ap, isAp := x.(*ssa.Call)
+					if !isAp || !an.IsBuiltinCall(ap, "append") {
+						continue
+					}
+					na++
+					poss := cmpPossible(an.Guards(ap), isTotal, isSum)
+					if poss == nil || poss[0] || poss[1] {
+						ok = false
+						why = sprintf("%s: a dimension is listed where total.Cmp(sum) may be %v", c.InstrPos(ap), keysInt(poss))
+					}
+				}
+				if na == 0 {
+					ok = false
+					why = c.InstrPos(mu) + ": the list the dimension comes from is not built by guarded appends"
+				}
+			}
+		}
+		r.Check(ok && n >= 2, "SCALE", key, c.Pos(fn.Pos()), sprintf("%d writes, all for dimensions listed under total < sum", n), sprintf("the scaled minimum is rewritten for dimensions that are not short (%d writes; %s)", n, why))
 	}
 }
 
